@@ -46,8 +46,11 @@ MANIFEST = {
             'every explored session and must predict the real answers (fresh or which stale value), texts and filled slots.',
     'note': 'Trusted: Coq kernel/vm_compute; tools/tr_caches.py (AST -> tables/abstract programs; call resolution by name in the MRO, '
             'exceptions only where `raise`/try occur); the canonicalisers in tools/c16_ops.py; the fresh-interpreter oracle '
-            '(forked from a just-imported interpreter, discrepancies re-confirmed in brand-new interpreters).  Not modelled: SubNetlist/MNA '
-            'helper objects (never mutated), Node.rename, symbol assumptions (explored, not proved).',
+            '(forked from a just-imported interpreter, discrepancies re-confirmed in brand-new interpreters).  Public operations now include '
+            'the public methods of the node/component objects a circuit hands out (Node.rename, Cpt.open_circuit, ...: obligations cbop_*), '
+            'in-place modification of memoised values (queries_do_not_mutate_cache) and reassignment of process-wide switches that the analyses '
+            'read (env_switches_ok; the switch is part of the data identity in the explored sessions).  Not modelled: SubNetlist/MNA helper '
+            'objects (never mutated), symbol assumptions (explored, not proved), objects after a mutator raised.',
     'technique': 'Coq proof (induction over histories, verified abstract interpretation of translated programs) + in-Coq evaluation of the '
                  'history model against stateful differential exploration with fresh-interpreter oracle and delta debugging',
 }
@@ -110,7 +113,8 @@ class Gen:
             row = T.sigma_table[q]
             rows.append('  (%d, [%s])' % (i, '; '.join(self.flags(row[fl]) for fl in [(False, False), (False, True), (True, False), (True, True)])))
         out.append('Definition sigma_l : list (nat * list (option flags)) := [\n' + ';\n'.join(rows) + '\n].')
-        out.append('Definition public_l : list nat := [%s].' % '; '.join(str(self.idx[q]) for q in T.public))
+        out.append('(* public operations: functions of the MRO of Circuit and public methods of the component / node objects it hands out *)')
+        out.append('Definition public_l : list nat := [%s].' % '; '.join([str(self.idx[q]) for q in T.public] + [str(self.idx['cb:' + n]) for n in T.cb_public]))
         out.append('Definition public_ok_l : list nat := [%s].' % '; '.join(str(self.idx[q]) for q in T.public if T.op_ok[q]))
         out.append('Definition ctors_l : list nat := [%s].' % '; '.join(str(self.idx[q]) for q in sorted(T.ctor_ok)))
         out.append('(* returned objects that received a non-invalidating internal mutator: S flag at return (translator analysis) *)')
@@ -138,6 +142,12 @@ class Gen:
             nm = q.split('.')[-1]
             ob.append(('op_' + ident(q), 'summary_ok sigma_l %d (true, false) = true' % self.idx[q], 'vm_compute. reflexivity.',
                        T.op_ok[q], ('noinvalidate:' + q) if nm in OPS.MUT_ENTRY else ('mutates:' + nm)))
+        for n in T.cb_public:
+            owner = (T.cb_owner[n] or ['?.' + n])[0]
+            ob.append(('cbop_' + ident(n), 'summary_ok sigma_l %d (true, false) = true' % self.idx['cb:' + n], 'vm_compute. reflexivity.',
+                       T.cb_ok[n], 'noinvalidate:' + owner))
+        envbad = [x for x in T.env_switch_names if x not in T.env_invalidating]
+        ob.append(('env_switches_ok', '%s = true' % str(not envbad).lower(), 'reflexivity.', not envbad, 'env:' + ','.join(envbad)))
         for q in sorted(T.ctor_ok):
             ob.append(('ctor_' + ident(q), 'summary_ok sigma_l %d (false, false) = true' % self.idx[q], 'vm_compute. reflexivity.',
                        T.ctor_ok[q], 'constructor:' + q))
@@ -403,6 +413,11 @@ def gen_session(rng, tier, sid, nops=None):
             steps.append({'op': 'new', 'obj': name, 'text': '\n'.join(other)})
             models[name] = NetModel(other)
             queries([name], rng.randint(1, 3))
+        elif r < 0.88:
+            steps.append({'op': 'env', 'e': {'name': 'current_sign_convention', 'val': rng.choice(['active', 'hybrid', 'passive', 'passive'])}})
+        elif r < 0.91:
+            ns = [n for n in models[o].nodes() if n != '0'] or ['1']
+            steps.append({'op': 'mut', 'obj': o, 'm': {'how': 'rename_node', 'name': rng.choice(ns), 'new': str(rng.randint(10, 14))}})
         else:
             steps.append({'op': 'xform', 't': rng.choice(XFORMS)})
             if rng.random() < 0.5:
@@ -453,6 +468,23 @@ def targeted_sessions(T, rng, bad_keys, bad_ops, workdir):
         new = [{'op': 'new', 'obj': 'a', 'text': '\n'.join(base)}]
         out.append({'id': 'target_topology_fwd_%d' % bi, 'steps': new + qs + [dict(x) for x in qs]})
         out.append({'id': 'target_topology_rev_%d' % bi, 'steps': new + [dict(x) for x in reversed(qs)] + [dict(x) for x in qs]})
+    # process-wide switches read by the analyses: answers before / while / after a reassignment
+    for name in getattr(T, 'env_switch_names', []):
+        if name not in OPS.ENV_DEFAULTS:
+            continue
+        qs = [{'op': 'query', 'obj': 'a', 'q': {'k': 'I', 'a': 'R1'}}, {'op': 'query', 'obj': 'a', 'q': {'k': 'I', 'a': 'V1'}},
+              {'op': 'query', 'obj': 'a', 'q': {'k': 'Vc', 'a': 'R1'}}]
+        out.append({'id': 'target_env_' + name, 'steps': [{'op': 'new', 'obj': 'a', 'text': '\n'.join(BASES[0])}] + qs +
+                    [{'op': 'env', 'e': {'name': name, 'val': 'active'}}] + [dict(x) for x in qs] +
+                    [{'op': 'env', 'e': {'name': name, 'val': OPS.ENV_DEFAULTS[name]}}] + [dict(x) for x in qs]})
+    # public methods of node objects that write the netlist
+    for n in getattr(T, 'cb_public', []):
+        if not T.cb_ok[n] and ('cb:' + n) in [e for es in OPS.MUT_ENTRY.values() for e in es]:
+            how = [h for h, es in OPS.MUT_ENTRY.items() if 'cb:' + n in es][0]
+            qs = [{'op': 'query', 'obj': 'a', 'q': {'k': k}} for k in ('node_list', 'node_map', 'cg', 'nodes', 'enodes')]
+            out.append({'id': 'target_cb_' + ident(n), 'steps': [{'op': 'new', 'obj': 'a', 'text': '\n'.join(BASES[0])}] + qs +
+                        [{'op': 'mut', 'obj': 'a', 'm': {'how': how, 'name': '2', 'new': '7'}}] + [dict(x) for x in qs] +
+                        [{'op': 'query', 'obj': 'a', 'q': {'k': 'V', 'a': '7'}}]})
     for key in bad_keys:
         kinds = sorted(k for k, ks in views_of.items() if key in ks and k not in ('symbols',))
         for bi in (1, 3):
@@ -602,7 +634,7 @@ def is_ground_insertion(before, after):
     if len(a) != len(b) + 1 or a[:len(b)] != b:
         return False
     m = re.match(r'^W (\S+) 0$', a[-1].strip())
-    has0 = any('0' in l.split()[1:3] for l in b if not l.startswith('#kind'))
+    has0 = any('0' in l.split()[1:3] for l in b if not l.startswith('#'))
     return bool(m) and not has0
 
 
@@ -618,11 +650,11 @@ def step_requests(sess, recs):
         op = st['op']
         if op == 'query':
             txt = rec['texts'].get(st['obj'])
-            if txt is not None and not txt.startswith('ERR:') and not txt.startswith('#kind ?'):
+            if txt is not None and not txt.startswith('ERR:') and '#kind ?' not in txt:
                 out.append((i, 'query', {'text': txt, 'q': st['q']}))
         elif op == 'derive':
             src = prev_texts.get(st['obj'])
-            if src is not None and not src.startswith('#kind ?') and not src.startswith('ERR:'):
+            if src is not None and '#kind ?' not in src and not src.startswith('ERR:'):
                 out.append((i, 'derive', {'text': src, 'd': st['d']}))
         elif op == 'xform':
             out.append((i, 'xform', {'t': st['t']}))
@@ -700,8 +732,18 @@ def judge(sess, recs, fresh):
                 ces.append({'kind': 'history', 'what': 'xform:' + st['t']['what'], 'step': i, 'req': req, 'observed': obs, 'fresh': same})
     # an operation on one object must not change the text of any other object
     prev = {}
+    last_env = {}        # object -> name of the switch whose reassignment was the last change of its data
+    ce_at = {ce['step']: ce for ce in ces if ce['kind'] == 'history'}
     for i, (st, rec) in enumerate(zip(sess['steps'], recs)):
         target = st.get('as') if st['op'] == 'derive' else st.get('obj')
+        for name, txt in rec['texts'].items():
+            if name in prev and prev[name] != txt:
+                last_env[name] = st['e']['name'] if st['op'] == 'env' else None
+        if i in ce_at and last_env.get(st.get('obj')):
+            ce_at[i]['env'] = last_env[st['obj']]
+        if st['op'] == 'env':
+            prev = rec['texts']
+            continue
         for name, txt in rec['texts'].items():
             if name in prev and prev[name] != txt and not (st['op'] == 'mut' and name == target):
                 if name in dead_at and i >= dead_at[name]:
@@ -770,7 +812,11 @@ class CoqCases:
                     # the data of an object changed although no mutator was applied to it (reported by the
                     # differential check as mutates:/isolation:): keep the model in step, without invalidation
                     self.views.setdefault('breach|', (self.gen.nkeys + len(self.views), [], False))
-                    if is_ground_insertion(texts_prev[o], txt):
+                    if op == 'env':
+                        # a setter may drop SOME entries (e.g. only the class-level solutions); the model keeps them all
+                        # as possibly stale, which the comparison tolerates (stale prediction, fresh observation)
+                        emit('PMutNoInval %d %d %d' % (index[o], self.views['breach|'][0], self.did(txt)), i, 'env')
+                    elif is_ground_insertion(texts_prev[o], txt):
                         emit('PMut %d %d %d' % (index[o], self.views['breach|'][0], self.did(txt)), i, 'ground')     # _add_ground -> add()
                     else:
                         emit('PMutNoInval %d %d %d' % (index[o], self.views['breach|'][0], self.did(txt)), i, 'breach')
@@ -789,8 +835,12 @@ class CoqCases:
                     self.why = 'mutator on unknown object'
                     return None
                 v = self.view(st['m']['how'], OPS.MUT_ENTRY)
-                fi = self.T.resolve(OPS.MUT_ENTRY[st['m']['how']][0])
-                invalidates = fi is None or self.T.op_ok.get(fi.qname, True)
+                ent = OPS.MUT_ENTRY[st['m']['how']][0]
+                if ent.startswith('cb:'):
+                    invalidates = self.T.cb_ok.get(ent[3:], True)
+                else:
+                    fi = self.T.resolve(ent)
+                    invalidates = fi is None or self.T.op_ok.get(fi.qname, True)
                 if failed and texts_prev.get(o) == texts[o]:
                     emit('PTouch %d %d' % (index[o], v), i, 'touch')          # the mutator raised before changing anything
                 else:
@@ -1008,7 +1058,7 @@ def override_is_cause(sess, fresh, memo_attrs):
     for st, rec in zip(sess['steps'], rs):
         if st['op'] == 'mut' and st['m']['how'] == 'add':
             name = st['m']['line'].split()[0]
-            names = [l.split()[0] for l in prev.get(st['obj'], '').split('\n') if l.strip() and not l.startswith('#kind')]
+            names = [l.split()[0] for l in prev.get(st['obj'], '').split('\n') if l.strip() and not l.startswith('#')]
             if name in names:
                 steps.append({'op': 'mut', 'obj': st['obj'], 'm': {'how': 'remove', 'name': name}})
                 changed = True
@@ -1087,7 +1137,9 @@ def run(tier='quick', replay=None):
             'fresh oracle tools/impl_fresh.py: child forked from a just-imported interpreter; every reported discrepancy is re-evaluated in brand-new interpreters',
             'hand-written map query kind -> entry attributes (tools/c16_ops.py ENTRY/DERIVE_ENTRY/MUT_ENTRY), validated by the in-Coq correspondence evaluation',
         ]
-        res.assumptions = ['public operations = functions of the classes in the MRO of Circuit whose name does not start with an underscore (plus dunder methods); Node.rename and direct use of underscore-prefixed mutators are outside the quantifier',
+        res.assumptions = ['public operations = functions of the classes in the MRO of Circuit and methods of the Node/Cpt objects it hands out whose name does not start with an underscore (plus dunder methods); '
+                           'Node.remove/Node.append (bookkeeping primitives of Netlist.remove and the parser) and direct use of underscore-prefixed mutators are outside the quantifier',
+                           'process-wide switches: only those that State.__init__ sets to a constant and that are read in the analysis modules listed in tools/tr_caches.py ANALYSIS_MODULES are tracked',
                            'SubNetlist / MNA / CircuitGraph helper objects are never mutated after construction (they live inside memoised entries)',
                            'symbol assumptions held in the shared context/registry are explored differentially, not proved']
         # 1. translate
@@ -1304,13 +1356,18 @@ def run(tier='quick', replay=None):
                         ks = sorted(k for k in ks if k not in T.cleared)
                         if ks:
                             key = 'stale:' + '+'.join(ks)
+                        elif ce.get('env'):
+                            key = 'env:' + ce['env']        # entries filled under another value of a process-wide switch
                 if key is None and T is not None and ce['what'].startswith('query:'):
                     # a public mutator that does not invalidate was used before this query?
                     for st in s['steps'][:ce['step']]:
-                        if st['op'] == 'mut':
+                        if st['op'] == 'mut' and st.get('obj') == s['steps'][ce['step']].get('obj'):
                             for q in bad_ops:
                                 if q.split('.')[-1] == st['m']['how']:
                                     key = 'noinvalidate:' + q
+                            ent = OPS.MUT_ENTRY.get(st['m']['how'], [''])[0]
+                            if ent.startswith('cb:') and not T.cb_ok.get(ent[3:], True):
+                                key = 'noinvalidate:' + (T.cb_owner[ent[3:]] or ['?'])[0]
                 if key is None:
                     key = 'history:' + ce['what']
             ce['key'] = key
@@ -1405,7 +1462,7 @@ def run(tier='quick', replay=None):
         # a public operation that fails only because it (transitively) calls another failing public
         # operation is a consequence, not a cause
         if T is not None:
-            failing = [q for q in T.public if not T.op_ok[q]]
+            failing = [q for q in T.public if not T.op_ok[q]] + ['cb:' + n for n in T.cb_public if not T.cb_ok[n]]
 
             def reaches(f):
                 seen, stack = set(), list(T.calls.get(f, ()))
@@ -1419,7 +1476,7 @@ def run(tier='quick', replay=None):
             reach = {f: reaches(f) for f in failing}
             for f in failing:
                 if any(g != f and g in reach[f] and f not in reach[g] for g in failing):
-                    derived.add('op_' + ident(f))
+                    derived.add(('cbop_' + ident(f[3:])) if f.startswith('cb:') else ('op_' + ident(f)))
             if failing:
                 derived.add('locals_ok')
         for name, f, msg in res.failed_obl:
